@@ -440,6 +440,8 @@ impl WriteBuffer {
                         });
                     }
                 }
+                #[cfg(feature = "verif")]
+                crate::verif::note("coordinator_round_done", 0, 0);
             }
             #[cfg(feature = "verif")]
             crate::verif::retire("periodic");
